@@ -81,6 +81,7 @@ ConstructFails(tr, post) ==
   Chk("C07_Flag", C07_Flag(post.flag, raw, prm)) \cup
   Chk("C07_Kept", C07_Kept(d, raw, prm)) \cup
   Chk("C07_NoMsa", C07_NoMsa(d, post.flag, raw, prm)) \cup
+  Chk("C07_NoMsaRequested", tr.desc.nomsa => (~prm.hasmsa /\ d = raw /\ post.flag = FALSE)) \cup
   Chk("C05_NoHitAltered", C05_NoHitAltered(d, raw, prm)) \cup
   Chk("I_CropSeq", d = Crop(raw, prm))
 ConstructMarks(tr, post) ==
